@@ -9,6 +9,8 @@ package session
 //	seq <op>...                               one goroutine, results compared exactly with the model
 //	conc <flags> <T> {<n> <op>*n}*T fin <n> <op>*n
 //	rconc ...                                 same as conc (routed to the -race build by props/C17.py)
+//	wgl <reject|accept|malformed> <conc body> @@ H <records>   self-test of the driver's linearizability search
+//	                                          on a hand-written history; this harness only echoes the expected verdict
 //
 // ops:  c <key> <proto> <sid> <okey>   Claim      -> nil | o:<proto>/<sid>/<key>
 //
@@ -379,6 +381,19 @@ func TestVerifC17(t *testing.T) {
 				case <-time.After(1 * time.Second):
 					c17Hangs++
 					fmt.Fprintln(w, "hang")
+				}
+			case "wgl":
+				// self-test of the linearizability checker: the history is in the case, the expected
+				// verdict is its second token; nothing is executed here
+				switch f[1] {
+				case "reject":
+					fmt.Fprintln(w, "rejected")
+				case "accept":
+					fmt.Fprintln(w, "accepted")
+				case "malformed":
+					fmt.Fprintln(w, "malformed")
+				default:
+					fmt.Fprintln(w, "badline")
 				}
 			case "conc", "rconc":
 				fmt.Fprintln(w, c17Conc(f, seed*7919+lineNo))
